@@ -54,7 +54,8 @@ def concrete_replay(shape, model, timeout=120, mode=None):
     mode='terminate': only run the real code (API and CLI) - used to tell a slow solver from a run that never ends."""
     payload = pickle.dumps((shape.__class__.__module__, shape.__class__.__name__, shape.sid, shape.params, model))
     env = dict(os.environ)
-    env['PYTHONPATH'] = os.pathsep.join([VERIF, os.path.join(VERIF, '.deps')])
+    env['PYTHONPATH'] = os.pathsep.join(([os.path.join(os.environ['VERIF_REPO'], 'src')] if os.environ.get('VERIF_REPO') else [])
+                                        + [VERIF, os.path.join(VERIF, '.deps')])
     env['PYTHONDONTWRITEBYTECODE'] = '1'
     if mode:
         env['SX_REPLAY_MODE'] = mode
